@@ -113,8 +113,9 @@ def rand_tt(rng, ns, rs, lo=-2, hi=2):
                       for _ in range(rs[k])]) for k in range(len(ns))]
 
 
-def catalogue(tn, rng, big=False):
-    """the degenerate input families of the property, as (family, Y)"""
+def catalogue(tn, rng, big=False, extra=False):
+    """the degenerate input families of the property, as (family, Y); extra=True adds the exactly-rank-deficient
+    families used by the search only (delta, two-level cores, padded cores)"""
     out = []
     shapes = [[3, 4], [2, 3, 2], [3, 1, 2], [1, 1, 1], [2, 2, 2, 2], [4, 4], [1, 5], [2, 2, 2]]
     if big:
@@ -142,6 +143,16 @@ def catalogue(tn, rng, big=False):
         out.append(('rank_deficient_core', Yd))
         out.append(('cancel', tn.sub(Yr, Yr)))     # exactly zero tensor with non-zero cores
         out.append(('generic', Yr))
+        if extra:
+            out.append(('delta', tn.delta(ns, [rng.randrange(n) for n in ns], float(rng.choice([1, 2, -4])))))
+            out.append(('two_level', [np.array([[[float(rng.randint(0, 1)) for _ in range(G.shape[2])]] * G.shape[1]
+                                                for _ in range(G.shape[0])]) for G in Yr]))
+            pad = [1] + [rng.randint(2, 4) for _ in range(d - 1)] + [1]
+            Yp = [np.zeros((pad[k], ns[k], pad[k + 1])) for k in range(d)]
+            for k in range(d):
+                Yp[k][0, :, 0] = [float(rng.choice([1, 2, 4])) for _ in range(ns[k])]   # rank 1 inside padded cores
+            out.append(('padded_rank1', Yp))
+            out.append(('double_constant', tn.add(tn.const(ns, 2.), tn.const(ns, 2.))))
     return out
 
 
@@ -631,14 +642,17 @@ def _tt_routines(tn):
     Rts['truncate'] = (lambda Y, **k: tn.truncate(Y, **k),
                        [dict(e=e, r=r, orth=o, use_stab=s, is_eigh=g)
                         for e in (1e-10, 1e-2) for r in (1e12, 1, 2) for o in (True, False) for s in (True, False)
-                        for g in (True, False) if not (s and not o)])
+                        for g in (True, False) if not (s and not o)] +
+                       [dict(), dict(e=0.), dict(e=0., is_eigh=False), dict(e=0., orth=False), dict(e=0., use_stab=True),
+                        dict(e=0., r=2), dict(r=1), dict(is_eigh=False)])
     Rts['orthogonalize'] = (lambda Y, **k: _orth(tn, Y, **k),
                             [dict(k=k, use_stab=s) for k in (0, 1, -1, None) for s in (False, True)])
     Rts['orthogonalize_left'] = (lambda Y, **k: tn.orthogonalize_left(Y, 0), [dict()])
     Rts['orthogonalize_right'] = (lambda Y, **k: tn.orthogonalize_right(Y, len(Y) - 1), [dict()])
-    Rts['svd'] = (lambda Y, **k: tn.svd(full(Y), **k), [dict(e=1e-10), dict(e=1e-2, r=1), dict(e=0.)])
+    Rts['svd'] = (lambda Y, **k: tn.svd(full(Y), **k), [dict(), dict(e=1e-10), dict(e=1e-2, r=1), dict(e=0.), dict(e=0., r=2)])
     Rts['add_many'] = (lambda Y, **k: tn.add_many([Y] * k.pop('times'), **k),
-                       [dict(times=3), dict(times=17, e=1e-8, r=3), dict(times=16, trunc_freq=2)])
+                       [dict(times=3), dict(times=17, e=1e-8, r=3), dict(times=16, trunc_freq=2), dict(times=2, e=0.),
+                        dict(times=16, e=0., trunc_freq=3)])
     Rts['add'] = (lambda Y, **k: tn.add(Y, Y), [dict()])
     Rts['sub'] = (lambda Y, **k: tn.sub(Y, Y), [dict()])
     Rts['mul'] = (lambda Y, **k: tn.mul(Y, Y), [dict()])
@@ -743,6 +757,10 @@ def _data_for(rng, ns, kind):
         y = np.zeros(len(I))
     elif kind == 'constant':
         y = np.full(len(I), 2.)
+    elif kind == 'delta':
+        y = np.array([3. if not any(row) else 0. for row in I.tolist()])
+    elif kind == 'two_level':
+        y = np.array([float(row[0] == 0) for row in I.tolist()])
     else:
         a = [np.array([float(rng.randint(1, 3)) for _ in range(n)]) for n in ns]
         y = np.array([float(np.prod([a[k][i] for k, i in enumerate(row)])) for row in I])
@@ -801,9 +819,47 @@ def check_misc(tn, what, arg):
             Y = tt_of_json(arg['Y'])
             Z = tn.func_int(Y)
             ns = [G.shape[1] for G in Y]
+        elif what == 'core_tt_to_qtt':
+            G = np.array(arg['G'], dtype=float)
+            Z = tn.core_tt_to_qtt(G, **arg.get('kw', {}))
+            q = int(round(math.log2(G.shape[1])))
+            bad = None
+            if not isinstance(Z, list) or len(Z) != q:
+                bad = f'{len(Z) if isinstance(Z, list) else type(Z)} cores, expected {q}'
+            else:
+                r = G.shape[0]
+                for k, H in enumerate(Z):
+                    if not isinstance(H, np.ndarray) or H.ndim != 3 or H.shape[0] != r or H.shape[1] != 2 or min(H.shape) < 1:
+                        bad = f'core {k} has shape {getattr(H, "shape", None)}, left rank expected {r}'
+                        break
+                    r = H.shape[2]
+                if bad is None and r != G.shape[2]:
+                    bad = f'last right rank {r}, expected {G.shape[2]}'
+            if bad:
+                return dict(what='core_tt_to_qtt returned an ill-formed chain: ' + bad, input=inp)
+            if not finite_tt(Z):
+                return dict(what='core_tt_to_qtt returned non-finite entries (NaN/inf) on a finite core', input=inp)
+            return None
+        elif what == 'anova_func':
+            rr = C.Rng(arg['seed'])
+            d, m = arg['d'], arg['m']
+            X = np.array([[rr.choice([-1., -0.5, 0., 0.25, 0.5, 1.]) for _ in range(d)] for _ in range(m)])
+            X = np.vstack([X, X[: m // 2]])                                   # repeated samples
+            kind = arg['kind']
+            if kind == 'zero':
+                y = np.zeros(len(X))
+            elif kind == 'constant':
+                y = np.full(len(X), 2.)
+            elif kind == 'delta':
+                y = np.zeros(len(X))
+                y[0] = 3.
+            else:
+                y = np.array([float(np.prod(1. + x)) for x in X])
+            Z = tn.anova_func(X, y, arg['n'], **arg.get('kw', {}))
+            ns = [arg['n']] * d if isinstance(arg['n'], int) else list(arg['n'])
         elif what == 'matrix_svd':
             A = np.array(arg['A'], dtype=float)
-            U, V = tn.matrix_svd(A, arg.get('e', 1e-10), arg.get('r', 1e12))
+            U, V = tn.matrix_svd(A, **{k: arg[k] for k in ('e', 'r') if k in arg})
             if not (np.isfinite(U).all() and np.isfinite(V).all()):
                 return dict(what='matrix_svd returned non-finite factors for a finite matrix', input=inp)
             if U.shape[1] != V.shape[0] or U.shape[1] < 1 or U.shape[0] != A.shape[0] or V.shape[1] != A.shape[1]:
@@ -811,7 +867,7 @@ def check_misc(tn, what, arg):
             return None
         elif what == 'matrix_skeleton':
             A = np.array(arg['A'], dtype=float)
-            U, V = tn.matrix_skeleton(A, arg.get('e', 1e-10), arg.get('r', 1e12), rel=arg.get('rel', False),
+            U, V = tn.matrix_skeleton(A, **{k: arg[k] for k in ('e', 'r') if k in arg}, rel=arg.get('rel', False),
                                       give_to=arg.get('give', 'm'))
             if not (np.isfinite(U).all() and np.isfinite(V).all()):
                 return dict(what='matrix_skeleton returned non-finite factors for a finite matrix', input=inp)
@@ -842,7 +898,7 @@ def _replay_one(tn, inp):
         return check_aod(tn, tt_of_json(inp['Y']), inp['I'], inp['y'])
     if r in ('anova', 'als', 'cross'):
         return check_fit(tn, r, inp['ns'], inp['kind'], inp['seed'], inp['extra'])
-    if r in ('tt_to_qtt', 'svd_matrix', 'func_int', 'matrix_svd', 'matrix_skeleton'):
+    if r in ('tt_to_qtt', 'svd_matrix', 'func_int', 'matrix_svd', 'matrix_skeleton', 'core_tt_to_qtt', 'anova_func'):
         return check_misc(tn, r, inp['arg'])
     return None
 
@@ -879,17 +935,21 @@ def search(R, ctx, deep, hints):
             D = np.zeros((m, n))
             D[0, 0] = 2.
             mats.append(D)
+            T2 = np.zeros((m, n))
+            T2[:, : (n + 1) // 2] = 1.                       # two-level, exactly rank 1
+            mats.append(T2)
+            mats.append(np.diag([4., 1., 0., 0.])[:m, :n])     # exactly rank-deficient diagonal block
             for A in mats:
-                for e in (1e-10, 0.5):
-                    for r in (1e12, 1):
+                for ekw in (dict(e=1e-10), dict(e=0.5), dict(e=0.), dict()):      # e = 0. exactly, and the default
+                    for rkw in (dict(r=1e12), dict(r=1), dict()):
                         n_eval += 1
-                        add(check_misc(tn, 'matrix_svd', dict(A=A.tolist(), e=e, r=r)))
+                        add(check_misc(tn, 'matrix_svd', dict(A=A.tolist(), **ekw, **rkw)))
                         for rel in (False, True):
                             for give in ('l', 'r', 'm'):
                                 n_eval += 1
-                                add(check_misc(tn, 'matrix_skeleton', dict(A=A.tolist(), e=e, r=r, rel=rel, give=give)))
+                                add(check_misc(tn, 'matrix_skeleton', dict(A=A.tolist(), **ekw, **rkw, rel=rel, give=give)))
     # 2. TT-returning transformations and the scalar functions on the catalogue
-    cat = catalogue(tn, rng, big=deep)
+    cat = catalogue(tn, rng, big=deep, extra=True)
     rts = _tt_routines(tn)
     fam_count = {}
     for fam, Y in cat:
@@ -918,6 +978,12 @@ def search(R, ctx, deep, hints):
             add(check_misc(tn, 'tt_to_qtt', dict(Y=tt_json(Y))))
             n_eval += 1
             add(check_misc(tn, 'tt_to_qtt', dict(Y=tt_json(Y), kw=dict(e=1e-2, r=2))))
+            n_eval += 1
+            add(check_misc(tn, 'tt_to_qtt', dict(Y=tt_json(Y), kw=dict(e=0.))))
+            for G in Y:
+                for kw in (dict(), dict(e=0.), dict(e=1e-10), dict(e=0., r=2)):     # default of core_tt_to_qtt is e = 0.
+                    n_eval += 1
+                    add(check_misc(tn, 'core_tt_to_qtt', dict(G=G.tolist(), kw=kw)))
         if all(n >= 2 for n in ns):
             n_eval += 1
             add(check_misc(tn, 'func_int', dict(Y=tt_json(Y))))
@@ -925,11 +991,21 @@ def search(R, ctx, deep, hints):
     for q in (1, 2, 3):
         N = 2 ** q
         for A in (np.zeros((N, N)), np.eye(N), np.ones((N, N)), np.outer(np.arange(N) + 1., np.ones(N))):
-            n_eval += 1
-            add(check_misc(tn, 'svd_matrix', dict(A=A.tolist())))
+            for kw in (dict(), dict(e=0.), dict(e=0., r=2)):
+                n_eval += 1
+                add(check_misc(tn, 'svd_matrix', dict(A=A.tolist(), kw=kw)))
     # 4. fitting routines on zero / constant / rank-1 data with repeated samples
     shapes = [[3, 4], [2, 3, 2], [3, 1, 2], [2, 2, 2, 2]] + ([[4, 3, 3, 2], [1, 3, 1]] if deep else [])
     for ns in shapes:
+        for kind in ('delta', 'two_level'):
+            seed = rng.randrange(10 ** 6)
+            for extra in (dict(order=2, r=2), dict(order=2, r=3), dict(order=1, r=2)):
+                n_eval += 1
+                add(check_fit(tn, 'anova', ns, kind, seed, extra))
+        for kind in ('zero', 'constant', 'delta', 'rank1'):
+            for kw in (dict(), dict(e=0.)):
+                n_eval += 1
+                add(check_misc(tn, 'anova_func', dict(d=len(ns), m=12, n=3, kind=kind, seed=rng.randrange(10 ** 6), kw=kw)))
         for kind in ('zero', 'constant', 'rank1'):
             seed = rng.randrange(10 ** 6)
             for extra in (dict(order=1, r=2), dict(order=2, r=2), dict(order=2, r=3)):
